@@ -187,7 +187,7 @@ def c12_run(ctx):
 
 
 def c08_run(ctx):
-    with_server_trace(core_run(["MC_relay", "MC_relayB"], ["GEN_relayA", "GEN_relayB", "GEN_relayD", "GEN_recycle", "GEN_chan3"]))(ctx)
+    with_server_trace(core_run(["MC_relay", "MC_relayB"], ["GEN_relayA", "GEN_relayB", "GEN_relayD", "GEN_recycle", "GEN_chan3", "GEN_veto"]))(ctx)
     if not ctx.violations:   # the table invariants of the specification after histories of any length
         ctx.apalache_inductive("ChanInd.tla")
         ctx.tlaps_prove("ChanProof.tla")   # the same invariant, for arbitrary sets of clients, numbers and peers
@@ -288,7 +288,7 @@ def c18_run(ctx):
 
 
 def c05_run(ctx):
-    core_run(["MC_mtu"], ["GEN_mtu", "GEN_mtu1200", "GEN_relayA", "GEN_recycle", "GEN_stream", "GEN_relaygenA"])(ctx)
+    core_run(["MC_mtu"], ["GEN_mtu", "GEN_mtu1200", "GEN_relayA", "GEN_recycle", "GEN_stream", "GEN_relaygenA", "GEN_v6"])(ctx)
     if not ctx.violations:
         n = 24 if ctx.tier == "quick" else 300
         ctx.trace_validate("relay", "TestRelayTrace", "TraceRelay.tla", "TraceRelay.cfg", n)
@@ -310,7 +310,7 @@ def c14_run(ctx):
 
 PROPS = {
     "C01": dict(title="client data leaves only toward authorised peers", level="model_checking",
-                run=with_ledger_rt(with_server_trace(core_run(["MC_relay", "MC_relayB", "MC_tcp", "MC_iso", "MC_veto"], ["GEN_relayA", "GEN_relayB", "GEN_relayD", "GEN_v6", "GEN_tcpB", "GEN_iso", "GEN_stream", "GEN_veto"]))),
+                run=with_ledger_rt(with_server_trace(core_run(["MC_relay", "MC_relayB", "MC_tcp", "MC_iso", "MC_veto"], ["GEN_relayA", "GEN_relayB", "GEN_relayD", "GEN_v6", "GEN_tcpB", "GEN_iso", "GEN_stream", "GEN_veto", "GEN_users"]))),
                 assumptions=BASE_ASSUME + ["the TCP connect target clause is decided on TurnTCP.tla (Connect to a vetoed peer: 403, no connection)"]),
     "C02": dict(title="only authorised peers reach the client", level="model_checking",
                 run=with_relaytcp(with_ledger_rt(with_server_trace(core_run(["MC_relay", "MC_relayB", "MC_v6", "MC_tcp"], ["GEN_relayA", "GEN_relayB", "GEN_relayD", "GEN_v6", "GEN_tcpA", "GEN_recycle"])))),
@@ -333,7 +333,7 @@ PROPS = {
                 run=with_ledger_rt(with_server_trace(core_run(["MC_time", "MC_life", "MC_stream", "MC_reaper"], ["GEN_time", "GEN_users", "GEN_relayA", "GEN_lifeA", "GEN_stream", "GEN_reaper", "GEN_reaperS"]))),
                 assumptions=BASE_ASSUME),
     "C07": dict(title="permissions and channels live one full timeout past their last refresh", level="model_checking",
-                run=with_server_trace(core_run(["MC_relay", "MC_relayB", "MC_steps"], ["GEN_relayA", "GEN_relayB", "GEN_steps", "GEN_chan3"])),
+                run=with_server_trace(core_run(["MC_relay", "MC_relayB", "MC_steps", "MC_veto"], ["GEN_relayA", "GEN_relayB", "GEN_steps", "GEN_chan3", "GEN_veto"])),
                 assumptions=BASE_ASSUME + ["instants at which a timer is due are explored only by the gated schedules of TurnServerSteps.tla (a refresh racing the pending expiry callback: known finding D14)"]),
     "C08": dict(title="channel bindings are a bijection inside 0x4000-0x7FFF", level="model_checking",
                 run=c08_run,
